@@ -62,6 +62,7 @@ func replayOnce(b *Base, name string, bz []byte, digests bool, emit func(Step) e
 		return fmt.Errorf("empty behaviour")
 	}
 	SetTickUnit(acts, raws, bz)
+	SetSpelling(acts, raws, bz)
 	env, err := b.NewEnv(acts[0])
 	if err != nil {
 		return err
